@@ -120,31 +120,41 @@ def position_failures(text, decls, impl_ast):
         if s is None or squash(s) != exp or (s and (s[0].isspace() or s[-1].isspace())):
             bad.append({"construct": what, "position": p, "slice": s, "expected_tokens": exp})
 
-    def chk_type(t, it, what):
+    def inside(what, parent, child):
+        """positions nest like the constructs: a part lies within the span of the construct it is part of"""
+        if parent is None or child is None:
+            return
+        if (child[0], child[1]) < (parent[0], parent[1]) or (child[2], child[3]) > (parent[2], parent[3]):
+            bad.append({"construct": what, "position": child, "enclosing": parent, "why": "part lies outside the construct it belongs to"})
+
+    def chk_type(t, it, what, parent=None):
         if it is None:
             return
         chk(what, it["p"], R.ty(t))
+        inside(what, parent, it["p"])
         if 'fn' in t:
             f = t['fn']
             for (n, pt), ip in zip(f['params'], it["fn"]["params"]):
                 chk(what + ".param", ip["p"], [n, ':'] + R.ty(pt))
-                chk_type(pt, ip["t"], what + ".param.type")
+                inside(what + ".param", it["p"], ip["p"])
+                chk_type(pt, ip["t"], what + ".param.type", ip["p"])
             if f['ret']:
-                chk_type(f['ret'], it["fn"]["ret"], what + ".ret")
+                chk_type(f['ret'], it["fn"]["ret"], what + ".ret", it["p"])
             for tt, itt in zip(f['throws'] or [], it["fn"]["throws"] or []):
-                chk_type(tt, itt, what + ".throws")
+                chk_type(tt, itt, what + ".throws", it["p"])
         else:
             for a, ia in zip(t['args'], it["a"]):
-                chk_type(a, ia, what + ".arg")
+                chk_type(a, ia, what + ".arg", it["p"])
 
-    def chk_sig(f, node, what):
+    def chk_sig(f, node, what, parent=None):
         for (n, pt), ip in zip(f['params'], node["params"]):
             chk(what + ".param", ip["p"], [n, ':'] + R.ty(pt))
-            chk_type(pt, ip["t"], what + ".param.type")
+            inside(what + ".param", parent, ip["p"])
+            chk_type(pt, ip["t"], what + ".param.type", ip["p"])
         if f['ret']:
-            chk_type(f['ret'], node["ret"], what + ".ret")
+            chk_type(f['ret'], node["ret"], what + ".ret", parent)
         for tt, itt in zip(f['throws'] or [], node["throws"] or []):
-            chk_type(tt, itt, what + ".throws")
+            chk_type(tt, itt, what + ".throws", parent)
 
     for d, n in zip(decls, front.flatten_decls(impl_ast)):
         k = d['k']
@@ -158,18 +168,21 @@ def position_failures(text, decls, impl_ast):
         elif k == 'record':
             for f, fi in zip(d['fields'], n["fields"]):
                 chk("field", fi["p"], list(f['comment']) + [f['name'], ':'] + R.ty(f['type']) + [';'])
-                chk_type(f['type'], fi["t"], "field.type")
+                inside("field", n["p"], fi["p"])
+                chk_type(f['type'], fi["t"], "field.type", fi["p"])
         elif k == 'interface':
             for m, mi in zip(d['methods'], n["methods"]):
                 toks = list(m['comment']) + (['static'] if m['static'] else []) + (['const'] if m['const'] else []) + \
                        (['async'] if m['async'] else []) + [m['name']] + R.fn(m['sig']) + [';']
                 chk("method", mi["p"], toks)
-                chk_sig(m['sig'], mi, "method")
+                inside("method", n["p"], mi["p"])
+                chk_sig(m['sig'], mi, "method", mi["p"])
             for p, pi in zip(d['props'], n["props"]):
                 chk("property", pi["p"], list(p['comment']) + ['property', p['name'], ':'] + R.ty(p['type']) + [';'])
-                chk_type(p['type'], pi["t"], "property.type")
+                inside("property", n["p"], pi["p"])
+                chk_type(p['type'], pi["t"], "property.type", pi["p"])
         elif k == 'function':
-            chk_sig(d['sig'], n["fn"], "function")
+            chk_sig(d['sig'], n["fn"], "function", n["p"])
         elif k == 'error':
             for c, ci in zip(d['codes'], n["codes"]):
                 toks = list(c['comment']) + [c['name']]
@@ -181,7 +194,8 @@ def position_failures(text, decls, impl_ast):
                 chk("error_code", ci["p"], toks + [';'])
                 for (pn, pt), ip in zip(c['params'] or [], ci["params"]):
                     chk("error_code.param", ip["p"], [pn, ':'] + R.ty(pt))
-                    chk_type(pt, ip["t"], "error_code.param.type")
+                    inside("error_code.param", ci["p"], ip["p"])
+                    chk_type(pt, ip["t"], "error_code.param.type", ip["p"])
     return bad
 
 
